@@ -479,7 +479,7 @@ def s4(chk: Check, proj: Project) -> None:
 
 
 MANIFEST = {
-    "text": "Decides the LRU's structure: hit paths unconditionally move the node to the front; the two linked-list primitives are interpreted from their ASTs over all canonical heaps up to 3 nodes (remove, add-to-front, move-to-front; forward and backward links); insertion is dominated by the capacity test with eviction of tail.prev from list and dict; size 0 stores nothing; the template cache key contains source and module-qualified classes; the configured size reaches the cache. Also: eviction only for new keys, no early exit in the hit branch before the move-to-front, and the hit/miss decision is the cache's answer alone (single definition). Round 4 / triage: the key covers every input of the compilation (key completeness), all constructor calls agree, hit-path detection on path conditions. Round 5: the node stored under a key carries that key (no stale key on a recycled node); each optional key part is guarded by the object it is derived from; class and engine enter the key as objects (F45). Round 6: a hit returns the cached object itself (no copy on the way out); every keyed input reaches the compilation; the eviction refuses a victim only if it is missing.",
+    "text": "Decides the LRU's structure: hit paths unconditionally move the node to the front; the two linked-list primitives are interpreted from their ASTs over all canonical heaps up to 3 nodes (remove, add-to-front, move-to-front; forward and backward links); insertion is dominated by the capacity test with eviction of tail.prev from list and dict; size 0 stores nothing; the template cache key contains source and module-qualified classes; the configured size reaches the cache. Also: eviction only for new keys, no early exit in the hit branch before the move-to-front, and the hit/miss decision is the cache's answer alone (single definition). Round 4 / triage: the key covers every input of the compilation (key completeness), all constructor calls agree, hit-path detection on path conditions. Round 5: the node stored under a key carries that key (no stale key on a recycled node); each optional key part is guarded by the object it is derived from; class and engine enter the key as objects (F45). Round 6: a hit returns the cached object itself (no copy on the way out); every keyed input reaches the compilation; the eviction refuses a victim only if it is missing. Round 7: per-instance table and sentinels; no render-time memo on Nodes of cached Templates (shared with C07-S1-A2).",
     "note": "Trusted: Python dict semantics. Not decided: LRU order over long histories and transparency of rendered output as observables; thread-safety is C07.",
     "technique": "static typestate/dominance checks plus abstract interpretation of the list primitives' ASTs over small canonical heaps",
 }
